@@ -26,6 +26,9 @@ def run(chk):
         profile_eda(chk, 'R01.d')
     r01e(chk)
     r01f(chk)
+    from .c08 import r08c
+
+    r08c(chk, 'R01.g')
 
 
 # ---------------------------------------------------------------------------
